@@ -238,7 +238,7 @@ def run(ctx):
     if not ctx.replay and (judged == 0 or cnt["laws"] == 0):
         raise vlib.Infra("nothing was judged (judged=%d laws=%d)" % (judged, cnt["laws"]))
     rc = V.finish()
-    nst = 0 if ctx.replay else self_test(procs[0][1], wd)
+    nst = self_test(procs[0][1], wd) if rc == 0 and not ctx.replay else 0   # only meaningful when the real traces were accepted
     cov = {"evaluations": judged, "distinct_nontrivial": len(sigs),
            "rule": "evaluation = one round trip Ser -> Dec -> Ser2 judged by TLC (serialization errors excluded); non-trivial = "
                    "distinct (source, layer types, list lengths, payload length) signature",
